@@ -53,7 +53,8 @@ def family_build(tier, need):
         path, stats = model_records(m, tier, fresh=(m in need))
         out[m] = (path, stats)
         inputs.append(path)
-    g = vlib.gen_types(os.path.join(HARNESS, "genwire"), "genwire", 12, inputs)
+    # thorough: ~13 000 types; more, smaller crates and fewer parallel rustc processes keep the build within memory
+    g = vlib.gen_types(os.path.join(HARNESS, "genwire"), "genwire", 12 if tier == "quick" else 36, inputs)
     log("[gen] %s" % g)
     binp = vlib.cargo_build("wire")
     return out, binp
@@ -552,12 +553,63 @@ def mut_check(prop_id, tier, replay, select, check_prefix, text, extra=None):
         "(value / error / panic / process death) and validates returned values by re-serialising them, it does not run a sanitizer",
         "allocation-failure aborts on absurd declared lengths are excused, as the property states"])
 
+def _c06_schema_sections(tier, replay):
+    """C06 'with a schema section': SchemaMut.tla generates malformed schema sections, the real Schema::deserialize runs on each,
+    SchemaMutTrace.tla judges the observations"""
+    def run(v):
+        binp = vlib.cargo_build("schema")
+        recs = os.path.join(WORK, "schemamut_%s.ndjson" % tier)
+        if replay:
+            open(recs, "w").write(json.dumps(json.load(open(replay))["record"]["input"]) + "\n")
+        else:
+            r = vlib.run_tlc("SchemaMut.tla", "SchemaMut.cfg", "schemamut_" + tier, workers=8, timeout=1500)
+            if r["violated"]:
+                raise ToolError("SchemaMut: TLC reports a violation in the specification itself (see %s)" % r["out"])
+            if vlib.printed_json(r["out"], recs) == 0:
+                raise ToolError("SchemaMut produced no behaviours")
+        res = recs + ".res"
+        vlib.run_bin(binp, ["garbage", recs, res])
+        inputs = open(recs).read().splitlines()
+        obs_path = os.path.join(WORK, "schemamut_%s.obs" % tier)
+        observations = []
+        with open(obs_path, "w") as o:
+            for line in open(res):
+                rr = json.loads(line)
+                rec = json.loads(inputs[rr["i"]])
+                full = dict(rec)
+                full.update(rr["obs"])
+                observations.append(full)
+                o.write(json.dumps(full) + "\n")
+        r = vlib.run_tlc("SchemaMutTrace.tla", "SchemaMutTrace.cfg", "schemamuttrace_" + tier, workers=8, timeout=1500,
+                         extra_env={"OBS": obs_path}, java_opts="-Xss1g -Xmx8g")
+        if r["violated"]:
+            raise ToolError("SchemaMutTrace: unexpected TLC error (see %s)" % r["out"])
+        rej = os.path.join(WORK, "schemamut_%s.rej" % tier)
+        vlib.printed_json(r["out"], rej)
+        for line in open(rej):
+            j = json.loads(line)
+            o = observations[j["i"] - 1]
+            v.report("c06.schema." + j["verdict"], {"t": None, "inp": o["inp"]},
+                     "schema section %s (%s): spec %s, real %s %s" % (o["inp"], o["mut"], "accepts" if o["ok"] else "rejects", o["real"], o["msg"][:160]),
+                     {"kind": "schema-section", "input": {k: o[k] for k in ("inp", "mut", "ok", "pos", "known", "enc")}, "observed": o})
+        return len(observations)
+    return run
+
 @prop("C06")
 def c06(p, tier, replay):
+    if replay and json.load(open(replay))["record"].get("kind") == "schema-section":
+        v = Verdict(p, tier)
+        n = _c06_schema_sections(tier, replay)(v)
+        return v.finish("model_checking", {"states": 0, "transitions": 0, "traces_validated_against_impl": n, "evaluations": n,
+                                           "distinct_nontrivial": n, "rule": "replay of one recorded schema section", "exhaustive": False,
+                                           "explanation": "replay"}, [])
     return mut_check(p, tier, replay, lambda line: True, "c06.",
         "TLC (MutMC) enumerates malformed inputs per subject type and fixes the format's outcome with the reader oracle; the REAL reader is "
         "run on each input and TLC (MutTrace) validates every observation: no panic / abort (except genuine allocation failure), nothing "
-        "accepted that the format rejects, every returned value re-serialises to a canonical valid encoding no longer than the input")
+        "accepted that the format rejects, every returned value re-serialises to a canonical valid encoding no longer than the input; "
+        "the same for malformed SCHEMA SECTIONS (SchemaMut / SchemaMutTrace: every cut, byte and length mutation of the sections of "
+        "schema trees of every node kind, decoded by the real Schema::deserialize)",
+        extra=None if replay else _c06_schema_sections(tier, None))
 
 def _c07_prefixes(tier):
     def run(v):
@@ -645,7 +697,8 @@ def c13(p, tier, replay):
         "SDec(SEnc(s,0),0)=StripLayout(s), Diff(s,s) reports nothing, every single wire-altering mutant is reported in both directions and "
         "layout-annotation mutants are not; replay: real Schema::serialize bytes = SEnc byte for byte at formats 1 and 2, real "
         "Schema::deserialize of the specification's bytes (formats 0, 1, 2) gives the expected tree, real diff_schema verdict = Diff on every pair",
-        ["bounded universe of schema trees (spec/SchemaMC.tla Universe); trait / closure / future schemas are covered by the ABI models, not here",
+        ["bounded universe of schema trees (spec/SchemaMC.tla Universe) incl. the trait / closure / future / uninit-slice nodes of savefile-abi; "
+         "futures are excluded from the comparison clauses (diff_schema supports them in return position only)",
          "the format-0 writer no longer exists: format-0 bytes are produced by the specification from the reader's documented gates"])
 
 
